@@ -3,7 +3,7 @@
 From Coq Require Import List NArith Arith.
 From DS Require Import Gen.Constants Base.Bytes Base.Hash Base.Sched Model.Assemble Model.Clone
      Model.VerifyIndex Model.Sequencer Proofs.AssembleProofs Proofs.CloneProofs Proofs.SequencerProofs
-     Proofs.AssembleSeqProofs Proofs.AssembleLive.
+     Proofs.AssembleSeqProofs Proofs.AssembleLive Proofs.AssembleTraceProofs.
 Import ListNotations.
 
 (* SAFETY.  For every index, every plan that tiles it, every initial content of the (truncated)
@@ -122,6 +122,22 @@ Theorem C01_assemble_can_finish : forall (H : bytes -> id) (idx : Assemble.index
   exists cont, all_finished (run (Assemble.step H idx plan) cont s) = true.
 Proof. exact assemble_can_finish. Qed.
 Print Assumptions C01_assemble_can_finish.
+
+(* THE TIE of the event model to assemble.go is a trace validation: the verif build reports the
+   events of the worker goroutines of every successful traced run (job start, seed segment written
+   -- with the bytes found in the job's range --, re-hash passed, in-place hit, store write, self-seed
+   copy, ss.add), and the extracted Assemble.step must accept every one of them in order
+   (run_strict: the guard of each event holds of the model's file).  An accepted trace is an
+   execution of the model, so the safety theorem applies to the run the code performed: *)
+Theorem C01_trace_valid_file : forall (H : bytes -> id) (idx : Assemble.index) (plan : list (nat * nat)),
+  plan_ok idx plan ->
+  forall file0 blob (evs : list event) s',
+  index_describes H idx blob -> length file0 = length blob ->
+  run_strict (Assemble.step H idx plan) evs (Assemble.init plan file0) = Some s' ->
+  all_finished s' = true ->
+  a_file s' = blob \/ Collision H.
+Proof. exact assemble_trace_valid. Qed.
+Print Assumptions C01_trace_valid_file.
 
 (* Non-vacuity: target rows 1 2 3 1 2; a null seed, a seed (9 1 2 3) without reflinks, a reflink
    seed (2 3 1 2 4).  Rows 0-2 and 3-4 come from seed 1 (ties go to the first seed); with seed 1
